@@ -278,8 +278,13 @@ def frames_of(rng, st, side, sid, maxframe=16384):
 
 
 def other_frame(rng, sids):
-    t = rng.choice(["settings", "settings_ack", "ping", "ping", "window_update", "window_update", "priority", "unknown", "tablesize"])
+    t = rng.choice(["settings", "settings_ack", "ping", "ping", "window_update", "window_update", "priority", "unknown", "tablesize", "goaway"])
     op = {"t": t, "val": rng.randint(0, 100)}
+    if t == "goaway":
+        # a graceful shutdown notice in the middle of the connection (last-stream-id 0, one of the streams, or the maximum):
+        # the streams already started still complete
+        op["sid"] = rng.choice([0, 0] + sids + [2 ** 31 - 1])
+        op["val"] = rng.choice([0, 0, 2, 11])
     if t in ("window_update",):
         op["sid"] = rng.choice([0] + sids)
     if t in ("priority", "unknown"):
